@@ -206,7 +206,8 @@ type efNode struct {
 	start   int // instruction index to start at
 	tracked map[ssa.Value]bool
 	parent  *efNode
-	sup     bool // an earlier error of the enclosing function is known non-nil on this path (deferred-closure idiom)
+	sup     bool               // an earlier error of the enclosing function is known non-nil on this path (deferred-closure idiom)
+	nonnil  map[ssa.Value]bool // other error values known non-nil on this path (`if cerr := f.Close(); err == nil { err = cerr }`: on the false edge err is returned)
 }
 
 func trackedKey(t map[ssa.Value]bool) string {
@@ -330,7 +331,7 @@ func (w *World) checkErrFlow(src errSource, nr *noReturnInfo) efResult {
 						continue
 					}
 					hasErrPos = true
-					if aliasOf(res, n.tracked) || definitelyNonNilError(res) {
+					if aliasOf(res, n.tracked) || definitelyNonNilError(res) || n.nonnil[res] {
 						okRet = true
 					}
 				}
@@ -414,16 +415,41 @@ func (w *World) checkErrFlow(src errSource, nr *noReturnInfo) efResult {
 			if iff != nil && outerErrNonNilOn(iff.Cond, si) {
 				sup = true
 			}
+			nn := map[ssa.Value]bool{}
+			for v := range n.nonnil {
+				nn[v] = true
+			}
+			if iff != nil {
+				if v := errNonNilOn(iff.Cond, si); v != nil {
+					nn[v] = true
+				}
+			}
+			for _, in := range s.Instrs {
+				phi, ok := in.(*ssa.Phi)
+				if !ok {
+					break
+				}
+				if predIdx >= 0 && predIdx < len(phi.Edges) {
+					if nn[phi.Edges[predIdx]] {
+						nn[phi] = true
+					} else {
+						delete(nn, phi)
+					}
+				}
+			}
 			key := trackedKey(nt)
 			if sup {
 				key += "|sup"
+			}
+			if len(nn) > 0 {
+				key += "|nn:" + trackedKey(nn)
 			}
 			st := errflowState{s, key}
 			if seen[st] {
 				continue
 			}
 			seen[st] = true
-			work = append(work, &efNode{blk: s, start: 0, tracked: nt, parent: n, sup: sup})
+			work = append(work, &efNode{blk: s, start: 0, tracked: nt, parent: n, sup: sup, nonnil: nn})
 		}
 		if len(b.Succs) == 0 {
 			// block without successors that is neither return nor panic: unreachable code
@@ -436,6 +462,35 @@ func (w *World) checkErrFlow(src errSource, nr *noReturnInfo) efResult {
 func isErrorPtr(t types.Type) bool {
 	p, ok := t.Underlying().(*types.Pointer)
 	return ok && isErrorType(p.Elem())
+}
+
+// errNonNilOn: the error-typed SSA value that the condition shows to be non-nil on successor si, or nil.
+func errNonNilOn(cond ssa.Value, si int) ssa.Value {
+	truth := si == 0
+	for {
+		if u, ok := cond.(*ssa.UnOp); ok && u.Op == token.NOT {
+			cond = u.X
+			truth = !truth
+			continue
+		}
+		break
+	}
+	b, ok := cond.(*ssa.BinOp)
+	if !ok || (b.Op != token.EQL && b.Op != token.NEQ) {
+		return nil
+	}
+	var v ssa.Value
+	if isNilConst(b.Y) {
+		v = b.X
+	} else if isNilConst(b.X) {
+		v = b.Y
+	} else {
+		return nil
+	}
+	if !isErrorType(v.Type()) || (b.Op == token.NEQ) != truth {
+		return nil
+	}
+	return v
 }
 
 // outerErrNonNilOn: on successor si of an If with this condition, is an error
